@@ -173,12 +173,27 @@ theorem C01_outline (tol : Q) (gs pre : GlyphSet) (rank : String → Nat) (hg : 
         rw [← e, render_succ, hc, drawContours_id]
         simp
 
+theorem nonsingularFrom_of_good (gs : GlyphSet) (rank : String → Nat) (hg : Good gs rank) :
+    ∀ (f : Nat) (g : Glyph), (∀ k ∈ g.comps, k.t.det ≠ 0) → nonsingularFrom f gs g = true := by
+  intro f
+  induction f with
+  | zero => intro g _; rfl
+  | succ f ih =>
+    intro g hk
+    simp only [nonsingularFrom, List.all_eq_true, Bool.and_eq_true, bne_iff_ne, ne_eq]
+    intro k hkm
+    refine ⟨hk k hkm, ?_⟩
+    cases hb : gs.get? k.base with
+    | none => rfl
+    | some b => exact ih b (hg.nonsing k.base b hb)
+
 /-- the decidable predicate holds of the model's output -/
 theorem C01_outline_holds (tol : Q) (gs pre : GlyphSet) (rank : String → Nat) (hg : Good gs rank) (hn : Named gs)
     (hb : ∀ n, rank n ≤ gs.length) (h : preprocess [] gs = .ok pre)
     (n : String) (g : Glyph) (hget : gs.get? n = some g) (ops : List Op) (hops : cffOutline tol pre n = .ok ops) :
     holdsOutline true tol gs g ops = true := by
   rw [C01_outline tol gs pre rank hg hn hb h n g hget] at hops
-  simp [holdsOutline, hops]
+  have hns := nonsingularFrom_of_good gs rank hg (gs.length + 1) g (hg.nonsing n g hget)
+  simp [holdsOutline, hops, hns]
 
 end Ufo2ft.C01
